@@ -37,6 +37,7 @@ type Profile struct {
 	Visits      bool
 	IllTyped    bool
 	NumberForms bool
+	Crash       bool // call statements of a host function that panics
 	LateCmds    bool // commands registered late on single runners (operation addcmd)
 	LongRuns    bool // longer node bodies, and half of the nodes end with a jump: runs use all their operations
 }
@@ -516,6 +517,9 @@ func (g *G) body(depth, n int) []*ast.Stmt {
 			out = append(out, s)
 		case "call":
 			f := r.Pick("probe", "probe", "nr", "boom", "two")
+			if g.P.Crash && r.Intn(3) == 0 {
+				f = "crash" // a host function that panics: the panic passes through Next; it is not the end of the dialogue
+			}
 			if g.P.Faults > 0 && r.Intn(4) == 0 {
 				f = "nofunc"
 			}
@@ -791,10 +795,10 @@ var baseWeights = map[string]int{"line": 8, "opts": 3, "if": 3, "set": 4, "decla
 
 // Profiles of the run stream, by name.
 var Profiles = map[string]*Profile{
-	"flow": {Name: "flow", LongRuns: true, MaxNodes: 4, Weights: baseWeights, ExprDepth: 2, Faults: 1, Ops: 40, Untracked: true, Tags: true},
+	"flow": {Name: "flow", LongRuns: true, MaxNodes: 4, Weights: baseWeights, ExprDepth: 2, Faults: 1, Ops: 40, Untracked: true, Tags: true, SnapOps: 1}, // SnapOps 1: now and then a snapshot, a restore (also after the end)
 	// biased to reach an end: short bodies, many stops, few jumps; the trailing next calls probe the ended state
 	"end": {Name: "end", MaxNodes: 2, Weights: map[string]int{"line": 6, "opts": 4, "if": 3, "set": 3, "declare": 1, "jump": 1, "cmd": 2, "call": 2, "stop": 3},
-		ExprDepth: 1, Faults: 0, Ops: 24, HostWrites: 1, Ctl: true}, // Ctl: commands that complete while the host polls
+		ExprDepth: 1, Faults: 0, Ops: 24, HostWrites: 1, Ctl: true, Crash: true}, // Ctl: commands that complete while the host polls
 	// assignments of every operator over every pair of types, interleaved with host writes
 	"vars": {Name: "vars", MaxNodes: 2, Weights: map[string]int{"line": 4, "opts": 1, "if": 1, "set": 12, "declare": 3, "jump": 3, "cmd": 0, "call": 1, "stop": 0},
 		ExprDepth: 2, Faults: 2, Ops: 26, HostWrites: 4, Numeric: true},
